@@ -460,6 +460,17 @@ def sshfx_decoder(st, fields):
     return L
 
 
+EXTRA_SFTP = r'''
+//@ func (*sshFxpStatResponse).marshalPacket
+//@   property C06
+//@   content
+//@   results out, payload, err
+//@   requires p != nil && p.info != nil
+//@   ensures err == nil && len(out) == 9 && out[4] == 105 && be32(out, 5) == p.ID
+// (SSH_FXP_ATTRS = 105: id, then the attribute block produced by marshalFileInfo)
+'''
+
+
 def main():
     out = ["//go:build verif", "", "package sftp", "",
            "// Code generated by /verif/tools/gen_c06_contracts.py; DO NOT EDIT.",
@@ -485,6 +496,7 @@ def main():
             "//@   ensures be32(out, 9) == uint32(len(str))",
             "//@   content-ensures forall(j, 0 <= j && j < len(str) ==> out[13 + j] == str[j])", ""]
     out += filestat_contracts()
+    out += EXTRA_SFTP.strip("\n").split("\n") + [""]
     for st, typ, fields, opt in PACKETS:
         ml, _ = marshal_contract(st, typ, fields, opt)
         out += ml + [""]
